@@ -48,8 +48,15 @@ def vcase(H, rng, X, cid, kw, init, n_to, chain=None, clock=None, scale=1.0):
         vm.time = clock
     try:
         thr = None
-        if scale == 1.0 and clock is None and not chain and rng is not None and rng.random() < 0.3:
+        if scale == 1.0 and clock is None and not chain and rng is not None and rng.random() < 0.4:
             thr = (2 * int(rng.integers(0, 30)) + 1, 2)        # an absolute threshold (half-integer: never on a lattice value)
+            if rng.random() < 0.6:
+                # a threshold inside the range of distances that actually occur (many points already below it while the
+                # search still runs): a half-integer next to a middle quantile of the pairwise squared distances
+                Xi_ = X.astype(int)
+                d2 = ((Xi_[:, None, :] - Xi_[None, :, :]) ** 2).sum(-1)[np.triu_indices(N, 1)]
+                if len(d2):
+                    thr = (2 * int(np.sort(d2)[int(rng.uniform(0.15, 0.7) * len(d2))]) + 1, 2)
         ok = rec.fit(n_to, warm=False, with_y=False, init=init, thr=thr)
         for n2 in (chain or []):
             if not ok:
